@@ -21,6 +21,7 @@ import (
 	"encoding/json"
 	"fmt"
 	"os"
+	"sync"
 	"testing"
 )
 
@@ -80,6 +81,8 @@ func vRegion(name string, c bool)  {}
 func vNote(s string)               {}
 func vIsSym(x any) bool            { return false }
 func vNative() bool                { return true }
+func vHeld() int                   { return 0 }
+func vSyncMapPut(m *sync.Map, k, v any) bool { _, loaded := m.LoadOrStore(k, v); return !loaded }
 func vHang(what string)            { panic("VERIF: hang: " + what) }
 func vCrash()                      { panic(vrtCrashed{}) }
 func vCatchCrash(f func()) (crashed bool) {
